@@ -32,6 +32,10 @@ transformer size, every field layout):
   keyword value and else the parameter's default OBJECT (same identity tag, in the preview, in the instance
   channel and in what the body is handed); a `_setup_node` that copied the defaults is refuted by a witness
   whose body asks `arg is _DEFAULT`.
+* `C17_class_per_definition_repaired / _witness` — the registry of made classes (`classfactory`) hands every
+  defining object its own class when consulted by name and defining object; consulted by name alone (pinned
+  `inputs_to_dict`: name = hash of the specification; `dataclass_node`: name = `__name__`) the second of two
+  definitions sharing a name gets the class of the first.
 * `C17_xf_list_index_order`, `C17_xf_list_sorted_witness` — entry `i` of the list is the value supplied for
   `item_i` for every `n` (labels live in channel creation order, nothing is sorted); sorting the labels as
   strings is the same order up to `n = 10` and a different one at `n = 11`, by computation.
@@ -925,6 +929,60 @@ theorem C17_xf_list_sorted_witness :
   intro _ _ h
   exact absurd h (by decide)
 
+/-! ### one node class per defining object (the `classfactory` registry) -/
+
+/-- every class in the registry is the one the factory builds for its own defining object -/
+def RegOk {α : Type} (mk : Nat → α) (reg : List (RegEntry α)) : Prop := ∀ e ∈ reg, e.cls = mk e.ident
+
+/-- the property's "a node made from <definition>" for the class registry: whatever was requested before,
+the class handed out for a defining object is the class of THAT object -/
+def ClassPerDefinition (byName : Bool) : Prop :=
+  ∀ {α : Type} (mk : Nat → α) (reqs : List (String × Nat)),
+    classesFor byName mk [] reqs = reqs.map fun r => mk r.2
+
+theorem classesFor_ok {α : Type} (mk : Nat → α) (reg : List (RegEntry α)) (h : RegOk mk reg)
+    (reqs : List (String × Nat)) : classesFor false mk reg reqs = reqs.map fun r => mk r.2 := by
+  induction reqs generalizing reg with
+  | nil => rfl
+  | cons r rest ih =>
+    obtain ⟨name, ident⟩ := r
+    simp only [classesFor, List.map_cons]
+    unfold classFor
+    cases hf : reg.find? (fun e => e.name == name && (false || e.ident == ident)) with
+    | some e =>
+      have hm := List.mem_of_find?_eq_some hf
+      have hp := List.find?_some hf
+      simp only [Bool.false_or, Bool.and_eq_true, beq_iff_eq] at hp
+      simp only
+      rw [ih reg h, h e hm, hp.2]
+    | none =>
+      simp only
+      rw [ih _ (by
+        intro e he
+        simp only [List.mem_cons] at he
+        rcases he with rfl | he
+        · rfl
+        · exact h e he)]
+
+/-- with the repair (the registry is consulted by name AND defining object) every request gets its own class -/
+theorem C17_class_per_definition_repaired : ClassPerDefinition false := by
+  intro α mk reqs
+  exact classesFor_ok mk [] (by intro e he; cases he) reqs
+
+/-- on the pinned code (by name alone) the second of two defining objects that share a name gets the class
+of the first: `inputs_to_dict({"a": (None, -1)})` then `inputs_to_dict({"a": (None, -2)})` (`hash(-1) ==
+hash(-2)`), or two dataclasses called `Input` from two modules handed to `dataclass_node` -/
+theorem C17_class_per_definition_witness : ¬ ClassPerDefinition true := by
+  intro h
+  have := @h Nat id [("InputsToDictm2", 1), ("InputsToDictm2", 2)]
+  revert this
+  decide
+
+/-- a session that asks for three different definitions, two of them under one name, and for the first one
+again: with the repair each gets its own class and the repeated request gets the same class back -/
+example : classesFor false id [] [("D", 1), ("D", 2), ("E", 3), ("D", 1)] = [1, 2, 3, 1] := by decide
+example : classesFor true id [] [("D", 1), ("D", 2), ("E", 3), ("D", 1)] = [1, 1, 3, 1] := by decide
+
 /-! ### non-vacuity of the identity and size theorems -/
 
 /-- `_UNSET = object(); def g(a, x=_UNSET, y=[…])` with `y`'s default a (shared, mutable) list object -/
@@ -1003,3 +1061,5 @@ end PwVerif.C17
 #print axioms PwVerif.C17.C17_default_copy_witness
 #print axioms PwVerif.C17.C17_xf_list_index_order
 #print axioms PwVerif.C17.C17_xf_list_sorted_witness
+#print axioms PwVerif.C17.C17_class_per_definition_repaired
+#print axioms PwVerif.C17.C17_class_per_definition_witness
